@@ -35,7 +35,9 @@ class Node:
 
 
 class CFG:
-    def __init__(self, func: ast.FunctionDef):
+    def __init__(self, func: ast.FunctionDef, loop_body=False):
+        """loop_body=True: `func.body` is the body of a loop analysed on its own; break/continue at its top
+        level leave through the normal exit."""
         self.func = func
         self.nodes: list[Node] = []
         self.succ = defaultdict(set)
@@ -49,8 +51,11 @@ class CFG:
         self._loops = []               # (continue_target, break_collector)
         self._trys = []                # list of handler-entry collectors
         self._finals = []              # pending finally bodies (list of stmts)
+        brk = set()
+        if loop_body:
+            self._loops.append((self.exit_return.id, brk))
         out = self._seq(func.body, {self.entry.id})
-        for p in out:
+        for p in out | brk:
             self._edge(p, self.exit_return.id)
 
     # ----------------------------------------------------------- construction
